@@ -387,9 +387,18 @@ def to_dense(real):
     """Category and dense content of a result of the real code."""
     import porepy as pp
 
+    from mc.oracles.grpK_sparse import is_wellformed
+
     if isinstance(real, pp.ad.AdArray):
+        if not sps.issparse(real.jac):
+            return ("other:AdArray with %s Jacobian" % type(real.jac).__name__, None)
+        if is_wellformed(real.jac) is not None:
+            return ("malformed sparse Jacobian: " + is_wellformed(real.jac), None)
         return ("ad", np.asarray(real.val, dtype=float), real.jac.toarray())
     if sps.issparse(real):
+        # never densify inconsistent index arrays (scipy's C code would corrupt memory)
+        if is_wellformed(real) is not None:
+            return ("malformed sparse matrix: " + is_wellformed(real), None)
         return ("sp", real.toarray())
     if isinstance(real, np.ndarray):
         if real.ndim == 1:
